@@ -126,8 +126,57 @@ def resize_small_scope():
     return None
 
 
+DIM_TABLE = {
+    ("photon_weave/operation/fock_operation.py", "FockOperationType"): {
+        "Creation": ["return [int(num_quanta + 2)]"], "Annihilation": ["return [num_quanta + 2]"], "PhaseShift": ["return [num_quanta + 1]"],
+        "Identity": ["return [num_quanta + 1]"]},
+    ("photon_weave/operation/composite_operation.py", "CompositeOperationType"): {
+        "NonPolarizingBeamSplitter": ["dim = int(jnp.sum(jnp.array(num_quanta))) + 1", "return [dim, dim]"],
+        "CXPolarization": ["return [2, 2]"], "SwapPolarization": ["return [2, 2]"], "CZPolarization": ["return [2, 2]"]},
+}
+
+
+def dimension_rule_obligations(rep):
+    """Exact dimension rules (C10: 'exactly for ladder, phase and beam-splitter operations'): the match arms of compute_dimensions
+    return num_quanta + 2 for ladder operators (room for one more quantum), num_quanta + 1 for phase / identity, total + 1 on both
+    modes for the beam splitter, 2 per operand for polarization gates.  Estimated types (Displace / Squeeze / Expresion) must clamp
+    the estimate from below by num_quanta + 1."""
+    import ast
+    from vf.common import Obligation
+    for (rel, cls), want in DIM_TABLE.items():
+        fq = f"{rel}::{cls}.compute_dimensions"
+        try:
+            src = (common.REPO / rel).read_text()
+            tree = ast.parse(src)
+            c = next(n for n in tree.body if isinstance(n, ast.ClassDef) and n.name == cls)
+            fn = next(n for n in c.body if isinstance(n, ast.FunctionDef) and n.name == "compute_dimensions")
+            m = next(s for s in fn.body if isinstance(s, ast.Match))
+        except Exception as ex:
+            rep.undecided.append(f"{fq}: {ex}")
+            continue
+        rep.add_function(fq, rel, ast.get_source_segment(src, fn) or "", "P (match-arm table vs contract table)")
+        got = {ast.unparse(case.pattern).split(".")[-1]: [ast.unparse(s) for s in case.body] for case in m.cases}
+        for arm, body in want.items():
+            ok = got.get(arm) == body
+            oid = f"{fq}::ensures:{arm}-dimension-rule"
+            rep.add_ob(Obligation(oid, fq, "ensures", "pyvc", "discharged" if ok else "failed", detail="" if ok else f"arm is {got.get(arm)}, contract {body}"))
+            if not ok:
+                rep.violation(f"{fq}: dimension rule of {arm} is {got.get(arm)}, contract {body}", key=f"P:{oid}",
+                              replay={"kind": "dispatch", "path": rel, "type": arm, "got": got.get(arm), "want": body, "failed_obligations": [oid]}, no_input=True)
+        if cls == "FockOperationType":
+            for arm in ("Displace", "Squeeze", "Expresion"):
+                body = got.get(arm, [])
+                ok = any("if cd < num_quanta + 1" in b for b in body) and body[-1:] == ["return [cd]"]
+                oid = f"{fq}::ensures:{arm}-estimate-is-clamped-by-num_quanta+1"
+                rep.add_ob(Obligation(oid, fq, "ensures", "pyvc", "discharged" if ok else "failed", detail="; ".join(body)[:200]))
+                if not ok:
+                    rep.violation(f"{fq}: the estimated dimension of {arm} is not clamped from below by num_quanta + 1", key=f"P:{oid}",
+                                  replay={"kind": "dispatch", "path": rel, "type": arm, "got": body, "failed_obligations": [oid]}, no_input=True)
+
+
 def run(rep, tier):
     resize_kernel(rep)
+    dimension_rule_obligations(rep)
     kernels.oracle_self_check(rep)
     kernels.run_generators(rep, ["trace_out_matrix"])
     kernels.run_scope(rep, ["photon_weave/state/fock.py", "photon_weave/operation/fock_operation.py",
